@@ -284,12 +284,10 @@ class Squid:
         L.append('error_directory %s/errors/templates' % t)
         L.append('err_page_stylesheet %s/errors/errorpage.css' % t)
         L.append('unlinkd_program %s/src/unlinkd' % t)
-        L.append('pinger_enable off')
         L.append('dns_nameservers 127.0.0.1')
         L.append('hosts_file %s/hosts' % self.dir)
         L.append('visible_hostname squid.verif')
         L.append('shutdown_lifetime 1 second')
-        L.append('netdb_filename none')
         L.append('buffered_logs off')
         L.append('client_db off')
         L.append('via on')
@@ -328,7 +326,8 @@ class Squid:
                'VSHIM_CTL': os.path.join(self.dir, 'ctl.sock'),
                'VSHIM_T0': str(self.now_us),
                'ASAN_OPTIONS': 'verify_asan_link_order=0:detect_leaks=0:halt_on_error=1:abort_on_error=0:'
-                               'log_path=%s/asan:detect_odr_violation=0:handle_abort=1:allocator_may_return_null=1' % self.dir,
+                               'log_path=%s/asan:detect_odr_violation=0:handle_abort=1:allocator_may_return_null=1:'
+                               'quarantine_size_mb=4:malloc_context_size=6' % self.dir,
                'UBSAN_OPTIONS': 'print_stacktrace=1'}
         env.update(self.extra_env)
         return env
@@ -933,3 +932,128 @@ class World:
             for oc in self.oconns:
                 oc.c.close()
             self.origin.close()
+
+
+# ------------------------------------------------------------------ generic "many cases on a reused instance" runner
+
+def run_cases(ctx, cases, run_case, make_world, key_of=None, determinism_n=12, nshards=None, health_each=True,
+              fresh_world_per_case=False):
+    """Exhaustively run `cases` (a list, deterministic order) sharded over processes.
+
+    make_world(ctx, shard) -> World-like object with .start(), .stop(), .sq
+    run_case(world, case)  -> dict(outcome=str, violation=None|str, transcript=bytes|str)
+    key_of(case) -> stable string key (default: repr(case))
+
+    Obligations built in: the first `determinism_n` cases of every shard are executed twice (the second
+    time on a fresh instance) and their transcripts must be identical; every violating case is re-run on a
+    fresh instance and must violate again before it is reported (otherwise HarnessError: nondeterminism).
+    A sanitizer report / assertion / exit of Squid during a case is returned as a violation of that case
+    with outcome 'squid-crashed' (checks whose property does not forbid crashes turn these into observations).
+    Returns dict(evaluations, outcomes{}, violations[(key, what, case)], samples[], deadline_hit, crashes[]).
+    """
+    import time as _t
+    key_of = key_of or (lambda c: repr(c))
+    t_end = ctx.t0 + ctx.deadline_s - 10
+
+    def worker(shard, items):
+        res = {'evaluations': 0, 'outcomes': {}, 'violations': [], 'samples': [], 'deadline_hit': False,
+               'crashes': [], 'kicks': 0, 'replays': 0}
+        state = {'w': None, 'gen': 0}
+
+        def fresh():
+            if state['w'] is not None:
+                res['kicks'] += state['w'].sq.kicks
+                state['w'].stop()
+            state['gen'] += 1
+            state['w'] = make_world(ctx, shard)
+            state['w'].start()
+            return state['w']
+
+        def one(case):
+            w = state['w']
+            r = run_case(w, case)
+            if health_each:
+                hp = w.sq.health_problems()
+                if hp:
+                    r = dict(r)
+                    r['crash'] = hp
+                    fresh()
+            return r
+        try:
+            fresh()
+            # determinism obligation (instance starts are expensive in this sandbox, so it costs one extra
+            # start per shard): the first determinism_n cases are run as a sequence on a first instance and
+            # again on a second, fresh instance; outcomes and transcripts must be identical.
+            first = []
+            if determinism_n and not fresh_world_per_case:
+                for case in items[:determinism_n]:
+                    first.append(one(case))
+                    res['replays'] += 1
+                fresh()
+            for n, case in enumerate(items):
+                if _t.time() > t_end:
+                    res['deadline_hit'] = True
+                    break
+                if fresh_world_per_case and n:
+                    fresh()
+                r = one(case)
+                res['evaluations'] += 1
+                if n < len(first):
+                    r0 = first[n]
+                    if r0.get('transcript') != r.get('transcript') or r0.get('outcome') != r.get('outcome'):
+                        raise HarnessError('nondeterminism: case %s gave different transcripts on two runs:\n%r\n%r' % (
+                            key_of(case), str(r0.get('transcript'))[:600], str(r.get('transcript'))[:600]))
+                elif fresh_world_per_case and n < determinism_n:
+                    fresh()
+                    r2 = one(case)
+                    res['replays'] += 1
+                    if r2.get('transcript') != r.get('transcript') or r2.get('outcome') != r.get('outcome'):
+                        raise HarnessError('nondeterminism: case %s gave different transcripts on two runs:\n%r\n%r' % (
+                            key_of(case), str(r.get('transcript'))[:600], str(r2.get('transcript'))[:600]))
+                oc = r.get('outcome', 'ok')
+                if r.get('crash'):
+                    oc = 'squid-crashed'
+                    res['crashes'].append((key_of(case), '; '.join(r['crash'])[:3000], case))
+                res['outcomes'][oc] = res['outcomes'].get(oc, 0) + 1
+                if len(res['samples']) < 3 and (n % 97 == 0):
+                    res['samples'].append({'case': case, 'outcome': oc})
+                if r.get('violation'):
+                    # replay before report: the first violations of a shard on a fresh instance (that is what
+                    # the replay file does), later ones on the running instance
+                    confirmed = False
+                    for attempt in range(3):
+                        if len(res['violations']) < 3 or attempt > 0:
+                            fresh()
+                        r2 = one(case)
+                        res['replays'] += 1
+                        if r2.get('violation'):
+                            confirmed = True
+                            break
+                    if not confirmed:
+                        raise HarnessError('violation not reproducible for case %s: %s' % (key_of(case), r['violation'][:500]))
+                    res['violations'].append((key_of(case), r['violation'], case))
+                    if len(res['violations']) >= 25:
+                        res['deadline_hit'] = True
+                        break
+        finally:
+            if state['w'] is not None:
+                res['kicks'] += state['w'].sq.kicks
+                state['w'].stop()
+        return res
+    parts = run_sharded(ctx, worker, list(cases), nshards)
+    out = {'evaluations': 0, 'outcomes': {}, 'violations': [], 'samples': [], 'deadline_hit': False, 'crashes': [],
+           'kicks': 0, 'replays': 0}
+    for p in parts:
+        if p is None:
+            continue
+        out['evaluations'] += p['evaluations']
+        out['kicks'] += p['kicks']
+        out['replays'] += p['replays']
+        out['deadline_hit'] = out['deadline_hit'] or p['deadline_hit']
+        for k, v in p['outcomes'].items():
+            out['outcomes'][k] = out['outcomes'].get(k, 0) + v
+        out['violations'] += p['violations']
+        out['crashes'] += p['crashes']
+        out['samples'] += p['samples'][:1]
+    out['samples'] = out['samples'][:6]
+    return out
